@@ -279,7 +279,7 @@ PROPS["C07"] = dict(
           "The libFuzzer target POLY checks the C polynomial evaluations behind the public shares element-wise; the thorough tier adds a native-fuzz campaign over the same property. "
           "Non-trivial = a Byzantine participant performed a non-honest action and the delivery order was not FIFO; distinct by draw-record hash."),
     assumptions=BLS_ASSUME[:1] + ["the assumptions of the statement: round-synchronous delivery, reliable broadcast, at most t Byzantine participants", "Joint-Feldman: the disqualified set of a participant is read from its Disqualify callbacks; single-dealer protocol: from the End verdict"],
-    jobs=[J("TestC07_Agreement", 1500, 4000, shards=16), GF("TestC07_Agreement", 150, procs=16),
+    jobs=[J("TestC07_Agreement", 1500, 4000, shards=16), J("TestC07_LargeNetwork", 2, 12, shards=4), GF("TestC07_Agreement", 150, procs=16),
           J("cfuzz:POLY", 20000, 120, kind="cfuzz", target="POLY")],
 )
 
@@ -290,7 +290,7 @@ PROPS["C08"] = dict(
           "or who left an honest complaint unanswered or answered it with a value not matching its vector, is disqualified by every honest participant; (g) plain Feldman VSS: every delivery order of (vector, share, one duplicate of each) x every kind of vector and share: End returns keys iff the first vector is valid (oracle) and the first share is well-formed and matches it, otherwise a DKG-failure error. "
           "Non-trivial = Byzantine non-honest action and non-FIFO delivery (simulator) / an invalid or inconsistent dealing (plain VSS); distinct by draw-record hash / by construction."),
     assumptions=BLS_ASSUME[:1] + ["the assumptions of the statement: round-synchronous delivery, reliable broadcast, at most t Byzantine participants"],
-    jobs=[J("TestC08_Fairness", 1000, 5000, shards=14), J("TestC08_PlainVSS", 3, 12, shards=6), GF("TestC08_Fairness", 150, procs=16),
+    jobs=[J("TestC08_Fairness", 1000, 5000, shards=14), J("TestC08_PlainVSS", 3, 12, shards=6), J("TestC08_LargeNetwork", 2, 12, shards=4), GF("TestC08_Fairness", 150, procs=16),
           J("cfuzz:POLY", 20000, 120, kind="cfuzz", target="POLY"), J("cfuzz:G2_VECTOR", 30000, 120, kind="cfuzz", target="G2_VECTOR")],
 )
 
